@@ -41,18 +41,10 @@ fn shape(classifier: &BuiltinValueClassifier) -> (usize, bool, Tail) {
     (arrows, polymorphic, tail)
 }
 
-//@ id: c06_h1_abi_arity_all_roles
-//@ property: C06
-//@ tier: quick
-//@ encodes: BuiltinOperationAbi::{for_role, pure, effect, branch, optional, optional_pair, string_fold, io_effect, arrows, continuation_with}, BuiltinValueRole::arity
-//@ sym: role: any of the 126 BuiltinValueRole values (8x9 integer, 2x8 float, 38 others)
-//@ oracle: the number of leading arrows of the ABI classifier equals the role's declared arity; numeric roles have the declared family (arithmetic: pure at the same atom; comparison: continuation-polymorphic branch; to_string: pure String); the classifier tail is Ret atom / OS / the bound continuation type
-//@ bounds: all roles; classifier depth <= 5 arrows (asserted); unwind 7
-//@ replay: playback
-#[kani::proof]
-#[kani::unwind(7)]
-fn c06_h1_abi_arity_all_roles() {
-    let role = any_role();
+/// All checks for one role. Called with a *constant* role from each arm of the dispatch below,
+/// so that CBMC executes `for_role` on a concrete role per path (its Box-tree construction with a
+/// symbolic role does not finish) while the solver still chooses the arm.
+fn check_role(role: BuiltinValueRole) {
     let abi = BuiltinOperationAbi::for_role(role);
     let (arrows, polymorphic, tail) = shape(&abi.classifier);
     assert!(arrows <= 5, "classifier no deeper than the harness walks");
@@ -67,12 +59,12 @@ fn c06_h1_abi_arity_all_roles() {
                 | IntegerOperation::Sub
                 | IntegerOperation::Mul
                 | IntegerOperation::Div
-                | IntegerOperation::Mod => assert!(arrows == 2 && tail == Tail::Return(atom)),
+                | IntegerOperation::Mod => assert!(arrows == 2 && tail == Tail::Return(atom), "integer arithmetic: T -> T -> Ret T"),
                 | IntegerOperation::Eq | IntegerOperation::Lt | IntegerOperation::Gt => {
-                    assert!(arrows == 4 && tail == Tail::Bound0)
+                    assert!(arrows == 4 && tail == Tail::Bound0, "integer comparison: T -> T -> Thk B -> Thk B -> B")
                 }
                 | IntegerOperation::ToString => {
-                    assert!(arrows == 1 && tail == Tail::Return(BuiltinValueAtom::String))
+                    assert!(arrows == 1 && tail == Tail::Return(BuiltinValueAtom::String), "integer to_string: T -> Ret String")
                 }
             }
         }
@@ -80,19 +72,160 @@ fn c06_h1_abi_arity_all_roles() {
             let atom = BuiltinValueAtom::Float(t);
             match op {
                 | FloatOperation::Add | FloatOperation::Sub | FloatOperation::Mul | FloatOperation::Div => {
-                    assert!(arrows == 2 && tail == Tail::Return(atom))
+                    assert!(arrows == 2 && tail == Tail::Return(atom), "float arithmetic: T -> T -> Ret T")
                 }
                 | FloatOperation::Eq | FloatOperation::Lt | FloatOperation::Gt => {
-                    assert!(arrows == 4 && tail == Tail::Bound0)
+                    assert!(arrows == 4 && tail == Tail::Bound0, "float comparison branches")
                 }
                 | FloatOperation::ToString => {
-                    assert!(arrows == 1 && tail == Tail::Return(BuiltinValueAtom::String))
+                    assert!(arrows == 1 && tail == Tail::Return(BuiltinValueAtom::String), "float to_string: T -> Ret String")
                 }
             }
         }
         | _ => {}
     }
-    kani::cover!(arrows == 0, "nullary role");
-    kani::cover!(tail == Tail::Os && arrows == 4, "four-argument effect");
     std::mem::forget(abi);
 }
+
+//@ id: c06_h1_abi_integer_roles
+//@ property: C06
+//@ tier: quick
+//@ encodes: BuiltinOperationAbi::{for_role, pure, branch, arrows, atom, thunk}, BuiltinValueRole::arity, IntegerOperation::arity
+//@ sym: integer type symbolic (8) x operation (9 constant call sites chosen by the solver)
+//@ oracle: leading arrows of the ABI classifier == declared arity; numeric roles have the declared family (arithmetic T -> T -> Ret T, comparison continuation-polymorphic branch, to_string T -> Ret String); classifier tail is Ret atom / OS / the bound continuation type; polymorphic exactly when branching
+//@ bounds: all 72 integer roles; classifier depth <= 5 arrows (asserted); unwind 7
+//@ replay: playback
+#[kani::proof]
+#[kani::unwind(7)]
+fn c06_h1_abi_integer_roles() {
+    let t = integer_type_of({ let i: usize = kani::any(); kani::assume(i < 8); i });
+    let op: u8 = kani::any();
+    match op {
+        | 0 => check_role(BuiltinValueRole::Integer(t, IntegerOperation::Add)),
+        | 1 => check_role(BuiltinValueRole::Integer(t, IntegerOperation::Sub)),
+        | 2 => check_role(BuiltinValueRole::Integer(t, IntegerOperation::Mul)),
+        | 3 => check_role(BuiltinValueRole::Integer(t, IntegerOperation::Div)),
+        | 4 => check_role(BuiltinValueRole::Integer(t, IntegerOperation::Mod)),
+        | 5 => check_role(BuiltinValueRole::Integer(t, IntegerOperation::Eq)),
+        | 6 => check_role(BuiltinValueRole::Integer(t, IntegerOperation::Lt)),
+        | 7 => check_role(BuiltinValueRole::Integer(t, IntegerOperation::Gt)),
+        | 8 => check_role(BuiltinValueRole::Integer(t, IntegerOperation::ToString)),
+        | _ => {}
+    }
+}
+
+//@ id: c06_h1_abi_float_roles
+//@ property: C06
+//@ tier: quick
+//@ encodes: BuiltinOperationAbi::{for_role, pure, branch, arrows}, BuiltinValueRole::arity, FloatOperation::arity
+//@ sym: float type symbolic (2) x operation (8 constant call sites)
+//@ oracle: leading arrows of the ABI classifier == declared arity; numeric roles have the declared family (arithmetic T -> T -> Ret T, comparison continuation-polymorphic branch, to_string T -> Ret String); classifier tail is Ret atom / OS / the bound continuation type; polymorphic exactly when branching
+//@ bounds: all 16 float roles; classifier depth <= 5 arrows (asserted); unwind 7
+//@ replay: playback
+#[kani::proof]
+#[kani::unwind(7)]
+fn c06_h1_abi_float_roles() {
+    let t = if kani::any() { FloatType::Float32 } else { FloatType::Float64 };
+    let op: u8 = kani::any();
+    match op {
+        | 0 => check_role(BuiltinValueRole::Float(t, FloatOperation::Add)),
+        | 1 => check_role(BuiltinValueRole::Float(t, FloatOperation::Sub)),
+        | 2 => check_role(BuiltinValueRole::Float(t, FloatOperation::Mul)),
+        | 3 => check_role(BuiltinValueRole::Float(t, FloatOperation::Div)),
+        | 4 => check_role(BuiltinValueRole::Float(t, FloatOperation::Eq)),
+        | 5 => check_role(BuiltinValueRole::Float(t, FloatOperation::Lt)),
+        | 6 => check_role(BuiltinValueRole::Float(t, FloatOperation::Gt)),
+        | 7 => check_role(BuiltinValueRole::Float(t, FloatOperation::ToString)),
+        | _ => {}
+    }
+}
+
+//@ id: c06_h1_abi_other_roles_1
+//@ property: C06
+//@ tier: quick
+//@ encodes: BuiltinOperationAbi::{for_role, pure, effect, branch, optional, optional_pair, string_fold, io_effect, io_error_continuation, continuation_with, arrows}, BuiltinValueRole::arity
+//@ sym: role: one of StrScalarLength, StrByteLength, StrAppend, StrSplitOnce, StrSplitAt, StrEq, StrGet, CharToStr, CharCodepoint, CharFromCodepoint, StrParseInt, BytesEmpty, BytesLength (constant call sites chosen by the solver)
+//@ oracle: leading arrows of the ABI classifier == declared arity; numeric roles have the declared family (arithmetic T -> T -> Ret T, comparison continuation-polymorphic branch, to_string T -> Ret String); classifier tail is Ret atom / OS / the bound continuation type; polymorphic exactly when branching
+//@ bounds: roles 0..13 of the 38 non-numeric roles; classifier depth <= 5 arrows (asserted); unwind 7
+//@ replay: playback
+#[kani::proof]
+#[kani::unwind(7)]
+fn c06_h1_abi_other_roles_1() {
+    let i: u8 = kani::any();
+    match i {
+        | 0 => check_role(BuiltinValueRole::StrScalarLength),
+        | 1 => check_role(BuiltinValueRole::StrByteLength),
+        | 2 => check_role(BuiltinValueRole::StrAppend),
+        | 3 => check_role(BuiltinValueRole::StrSplitOnce),
+        | 4 => check_role(BuiltinValueRole::StrSplitAt),
+        | 5 => check_role(BuiltinValueRole::StrEq),
+        | 6 => check_role(BuiltinValueRole::StrGet),
+        | 7 => check_role(BuiltinValueRole::CharToStr),
+        | 8 => check_role(BuiltinValueRole::CharCodepoint),
+        | 9 => check_role(BuiltinValueRole::CharFromCodepoint),
+        | 10 => check_role(BuiltinValueRole::StrParseInt),
+        | 11 => check_role(BuiltinValueRole::BytesEmpty),
+        | 12 => check_role(BuiltinValueRole::BytesLength),
+        | _ => {}
+    }
+}
+
+//@ id: c06_h1_abi_other_roles_2
+//@ property: C06
+//@ tier: quick
+//@ encodes: BuiltinOperationAbi::{for_role, pure, effect, branch, optional, optional_pair, string_fold, io_effect, io_error_continuation, continuation_with, arrows}, BuiltinValueRole::arity
+//@ sym: role: one of BytesAppend, BytesFromStr, BytesToStr, Stdin, Stdout, Stderr, IoRead, IoReadLine, IoReadAll, IoWriteAll, IoFlush, IoCloseReader, IoCloseWriter (constant call sites chosen by the solver)
+//@ oracle: leading arrows of the ABI classifier == declared arity; numeric roles have the declared family (arithmetic T -> T -> Ret T, comparison continuation-polymorphic branch, to_string T -> Ret String); classifier tail is Ret atom / OS / the bound continuation type; polymorphic exactly when branching
+//@ bounds: roles 13..26 of the 38 non-numeric roles; classifier depth <= 5 arrows (asserted); unwind 7
+//@ replay: playback
+#[kani::proof]
+#[kani::unwind(7)]
+fn c06_h1_abi_other_roles_2() {
+    let i: u8 = kani::any();
+    match i {
+        | 13 => check_role(BuiltinValueRole::BytesAppend),
+        | 14 => check_role(BuiltinValueRole::BytesFromStr),
+        | 15 => check_role(BuiltinValueRole::BytesToStr),
+        | 16 => check_role(BuiltinValueRole::Stdin),
+        | 17 => check_role(BuiltinValueRole::Stdout),
+        | 18 => check_role(BuiltinValueRole::Stderr),
+        | 19 => check_role(BuiltinValueRole::IoRead),
+        | 20 => check_role(BuiltinValueRole::IoReadLine),
+        | 21 => check_role(BuiltinValueRole::IoReadAll),
+        | 22 => check_role(BuiltinValueRole::IoWriteAll),
+        | 23 => check_role(BuiltinValueRole::IoFlush),
+        | 24 => check_role(BuiltinValueRole::IoCloseReader),
+        | 25 => check_role(BuiltinValueRole::IoCloseWriter),
+        | _ => {}
+    }
+}
+
+//@ id: c06_h1_abi_other_roles_3
+//@ property: C06
+//@ tier: quick
+//@ encodes: BuiltinOperationAbi::{for_role, pure, effect, branch, optional, optional_pair, string_fold, io_effect, io_error_continuation, continuation_with, arrows}, BuiltinValueRole::arity
+//@ sym: role: one of FsOpenReader, FsCreateWriter, FsAppendWriter, WriteStr, WriteInt, WriteLine, ReadLine, ReadLineAsInt, ReadTillEof, ArgList, RandomInt, Exit (constant call sites chosen by the solver)
+//@ oracle: leading arrows of the ABI classifier == declared arity; numeric roles have the declared family (arithmetic T -> T -> Ret T, comparison continuation-polymorphic branch, to_string T -> Ret String); classifier tail is Ret atom / OS / the bound continuation type; polymorphic exactly when branching
+//@ bounds: roles 26..38 of the 38 non-numeric roles; classifier depth <= 5 arrows (asserted); unwind 7
+//@ replay: playback
+#[kani::proof]
+#[kani::unwind(7)]
+fn c06_h1_abi_other_roles_3() {
+    let i: u8 = kani::any();
+    match i {
+        | 26 => check_role(BuiltinValueRole::FsOpenReader),
+        | 27 => check_role(BuiltinValueRole::FsCreateWriter),
+        | 28 => check_role(BuiltinValueRole::FsAppendWriter),
+        | 29 => check_role(BuiltinValueRole::WriteStr),
+        | 30 => check_role(BuiltinValueRole::WriteInt),
+        | 31 => check_role(BuiltinValueRole::WriteLine),
+        | 32 => check_role(BuiltinValueRole::ReadLine),
+        | 33 => check_role(BuiltinValueRole::ReadLineAsInt),
+        | 34 => check_role(BuiltinValueRole::ReadTillEof),
+        | 35 => check_role(BuiltinValueRole::ArgList),
+        | 36 => check_role(BuiltinValueRole::RandomInt),
+        | 37 => check_role(BuiltinValueRole::Exit),
+        | _ => {}
+    }
+}
+
